@@ -38,6 +38,16 @@ def run_e2e(args):
                     except Exception as e:  # noqa: BLE001
                         rec["runs"].append({"iface": iface, "split": split, "shuffle": shuffle, "T": T, "take": take,
                                             "error": f"{type(e).__name__}: {str(e)[:200]}"})
+        # tf.data with batching: the stream of examples inside the batches (batch size not dividing the split)
+        for split in [s for s in written if written[s]]:
+            N = len(written[split])
+            b = next(x for x in range(2, N + 3) if N % x)
+            take = a["m"] * N + a["r"]
+            try:
+                got, _ = I.run_iface(ds, "tf", split, shuffle=0, T=2, repeat=True, take=take, batch=b)
+                rec["runs"].append({"iface": "tf", "split": split, "shuffle": 0, "T": 2, "take": take, "got": got, "batch": b})
+            except Exception as e:  # noqa: BLE001
+                rec["runs"].append({"iface": "tf", "split": split, "shuffle": 0, "T": 2, "take": take, "batch": b, "error": f"{type(e).__name__}: {str(e)[:200]}"})
         # two Rust-backed repeating streams alive at the same time, consumed interleaved (train / validation during training)
         live = [s for s in written if written[s]]
         if I.supports("rust", a["fmt"], a["comp"]) and len(live) >= 2:
@@ -89,7 +99,7 @@ def run(ctx):
             split = run_["split"]
             onepass = [x for sh in r["shards"][split] for x in sh]
             N = len(onepass)
-            sig = {"kind": "repeat", "iface": run_["iface"], "shuffled": run_["shuffle"] > 0, "interleaved": bool(run_.get("interleaved"))}
+            sig = {"kind": "repeat", "iface": run_["iface"], "shuffled": run_["shuffle"] > 0, "interleaved": bool(run_.get("interleaved")), "batched": bool(run_.get("batch"))}
             if "error" in run_:
                 ctx.report(dict(sig, kind="repeat-error"), f"{run_['iface']} repeat=True raised {run_['error']}", {"case": r["case"], "run": run_}); continue
             got = run_["got"]
@@ -112,7 +122,7 @@ def run(ctx):
             distinct.add((r["case"]["fmt"], run_["iface"], run_["shuffle"] > 0, min(run_["T"], 3), N > r["case"]["eps"]))
     ctx.cov.update({
         "evaluations": nruns, "distinct_nontrivial": len(distinct), "traces_validated_against_impl": nruns,
-        "rule": "datasets with 2-3 splits (flat and nested shard lists); every interface with repeat=True; prefix of m*N+r elements (m=3 quick, 6 thorough); "
+        "rule": "datasets with 2-3 splits (flat and nested shard lists); every interface with repeat=True (tf.data also batched with a batch size that does not divide the split); prefix of m*N+r elements (m=3 quick, 6 thorough); "
                 "unshuffled prefix compared with the model's stream formula onepass[k mod N]; distinct = (format, interface, shuffled?, T class, multi-shard?)",
         "samples": [{"case": r["case"], "run": r["runs"][0]} for r in recs[:2]],
         "input_distribution": {"by_iface": collections.Counter(x["iface"] for r in recs for x in r["runs"]),
